@@ -185,6 +185,7 @@ fn run_case(c: &Case) -> CaseOut {
             }
             for o in &c.oracles {
                 let f = match o.as_str() {
+                    "c04" => oracles::c04_work(&c.input, &c.cfg),
                     "c02" if c.well_formed => oracles::c02_rescan(&c.input, &c.cfg),
                     "c03" if c.well_formed => oracles::c03_idempotent(&c.input, &c.cfg),
                     "c07" => oracles::c07_regions(&c.input, &c.cfg, c.well_formed),
@@ -403,6 +404,11 @@ fn gen_inputs(family: &str, rng: &mut Rng, n: usize, seeds: &[String]) -> Vec<St
                     tight: rng.chance(1, 3),
                 };
                 v.push(render_layout(&p, rng, o));
+            }
+        }
+        "deepnest" => {
+            for _ in 0..n {
+                v.push(deep_nest(rng));
             }
         }
         "boundary" => {
